@@ -77,7 +77,6 @@ struct LwwCase {
 }
 
 pub fn property() -> Property {
-    use proptest::prelude::*;
     let mut jobs: Vec<Box<dyn JobT>> = Vec::new();
     add::<SGCounter>(&mut jobs, 8000, 300_000);
     add::<SPNCounter>(&mut jobs, 8000, 300_000);
@@ -85,12 +84,22 @@ pub fn property() -> Property {
     add::<SLww>(&mut jobs, 8000, 300_000);
     add::<SMax>(&mut jobs, 6000, 200_000);
     add::<SMin>(&mut jobs, 6000, 200_000);
+    jobs.push(lww_flag_job(20_000, 400_000));
+    Property {
+        id: "C11",
+        rule: "Plans of inc/dec/inc_many/dec_many (steps in {0,1,2,3,7,1000,65536,2^32,..}), register writes with model-issued unique markers / values incl. i64::MIN/MAX, GSet inserts, by 2-5 actors, delivered in ANY order (newest-first biased) with duplicates, merges and stale-snapshot merges; after every step the affected replica's read is compared with arithmetic over its knowledge set (GCounter = sum over actors of the largest running total known, also never decreasing along a replica's history; PNCounter = that for P minus that for N as BigInt; Max/Min = extreme of applied values and the initial 0; LWWReg = value of the greatest marker; GSet = union, contains consistent) and the full internal state tree is compared too; separate job: LWWReg validate_update/validate_op/validate_merge flag exactly equal-marker/different-value. Non-trivial = >=2 actors, an op delivered before an earlier op of the same actor, >=1 duplicate and >=1 merge; distinct = distinct Plan hash.".into(),
+        assumptions: vec!["counter running totals stay far below u64::MAX (overflow of a running total is outside the documented domain)".into(), "LWWReg markers are unique per write (model-issued)".into()],
+        jobs,
+    }
+}
+
+pub fn lww_flag_job(q: u64, t: u64) -> Box<dyn JobT> {
+    use proptest::prelude::*;
     // LWWReg conflict flag: equal marker & different value is flagged, and nothing else
-    jobs.push(
-        job(
+    job(
             "LWWReg/validate flags exactly equal-marker/different-value",
-            20_000,
-            400_000,
+            q,
+            t,
             || strat((proptest::collection::vec((0u16..4, 0u8..6), 0..8), (0u16..4, 0u8..6)).prop_map(|(writes, probe)| LwwCase { writes, probe })),
             |c: &LwwCase, st: &mut Stats| {
                 let mut reg: LWWReg<u16, u8> = LWWReg::default();
@@ -124,12 +133,5 @@ pub fn property() -> Property {
             },
         )
         .floor("nontrivial", 0.05)
-        .boxed(),
-    );
-    Property {
-        id: "C11",
-        rule: "Plans of inc/dec/inc_many/dec_many (steps in {0,1,2,3,7,1000,65536,2^32,..}), register writes with model-issued unique markers / values incl. i64::MIN/MAX, GSet inserts, by 2-5 actors, delivered in ANY order (newest-first biased) with duplicates, merges and stale-snapshot merges; after every step the affected replica's read is compared with arithmetic over its knowledge set (GCounter = sum over actors of the largest running total known, also never decreasing along a replica's history; PNCounter = that for P minus that for N as BigInt; Max/Min = extreme of applied values and the initial 0; LWWReg = value of the greatest marker; GSet = union, contains consistent) and the full internal state tree is compared too; separate job: LWWReg validate_update/validate_op/validate_merge flag exactly equal-marker/different-value. Non-trivial = >=2 actors, an op delivered before an earlier op of the same actor, >=1 duplicate and >=1 merge; distinct = distinct Plan hash.".into(),
-        assumptions: vec!["counter running totals stay far below u64::MAX (overflow of a running total is outside the documented domain)".into(), "LWWReg markers are unique per write (model-issued)".into()],
-        jobs,
-    }
+        .boxed()
 }
